@@ -2,6 +2,7 @@ package props
 
 import (
 	"fmt"
+	"verif/internal/llvmref"
 
 	"verif/internal/corpus"
 	"verif/internal/fw"
@@ -37,7 +38,49 @@ func genC02(ctx *fw.Ctx) []fw.Case {
 		s := s
 		cases = append(cases, fw.Case{ID: s.ID, Run: func(r *fw.Rec) { c02Source(r, s) }})
 	}
+	cases = append(cases, fw.Case{ID: "llir-only", Run: c02LlirOnly})
 	return cases
+}
+
+// c02LlirOnly feeds inputs that LLVM 14 rejects and the library's parser
+// accepts: the property quantifies over every input the parser accepts, valid
+// for LLVM or not. (The corpus and its respellings are LLVM-valid.)
+func c02LlirOnly(r *fw.Rec) {
+	inputs := map[string]string{
+		// attribute-group spelling of the alignment in a function header
+		"header-align-pair": "define void @f() align=8 section \"s\" {\n  ret void\n}\n",
+		// decimal literals outside the range / precision of the type
+		"half-decimal-overflow":  "@i = global half 70000.0\n",
+		"half-decimal-inexact":   "@j = global half 0.1\n",
+		"float-decimal-inexact":  "@k = global float 0.1\n",
+		"float-decimal-overflow": "@l = global float 1.0e39\n",
+		// the type written in front of an operand disagrees with its definition
+		"operand-type-text-disagrees": "define i32 @f(i32* %p) {\n  %r = atomicrmw add i64* %p, i64 1 seq_cst\n  %s = add i64 %r, 1\n  ret i64 %s\n}\n",
+		"callee-type-text-disagrees":  "declare i32 @g()\ndefine i64 @f() {\n  %r = call i64 @g()\n  ret i64 %r\n}\n",
+		// a named void call
+		"named-void-call": "declare void @g()\ndefine void @f() {\n  %x = call void @g()\n  ret void\n}\n",
+		// parameter attributes LLVM wants on pointers only
+		"byval-on-integer": "declare void @g(i32 byval(i32))\n",
+		// linkage that needs a definition
+		"external-definition-spelled": "@g = external global i32 0\n",
+		// duplicate attributes in one group
+		"attrgroup-duplicate-attribute": "define void @f() #0 {\n  ret void\n}\nattributes #0 = { nounwind nounwind }\n",
+		// integer literal wider than its type
+		"int-literal-out-of-range":  "@g = global i8 300\n",
+		"bool-literal-out-of-range": "@g = global i1 2\n",
+		// a switch with a repeated case value
+		"switch-duplicate-case": "define void @f(i32 %x) {\n  switch i32 %x, label %d [ i32 1, label %d\n i32 1, label %d ]\nd:\n  ret void\n}\n",
+	}
+	for _, name := range fw.SortedKeys(inputs) {
+		x := inputs[name]
+		if ok, _, err := llvmref.Accepts(x); err != nil {
+			r.Inconclusive("llvm tool failure")
+			continue
+		} else if ok {
+			r.Note("llir-only input " + name + " is accepted by LLVM 14 (covered by the corpus checks instead)")
+		}
+		c02One(r, "llir-only/"+name, "original", x)
+	}
 }
 
 func c02Source(r *fw.Rec, s corpus.Source) {
